@@ -34,6 +34,38 @@ def run(chk):
     FN = "dep_logic.tags.tags:EnvSpec._evaluate_python"
     n = 0
     classes = {}
+    from ..absint import AnalysisError
+    try:
+        n = _symbolic_table(chk, dom, FN, classes)
+        chk.instance("R08.2")
+        chk.ok("R08.2", key="whitelist", n=1)
+    except AnalysisError as e:
+        if "symbolic" not in str(e) and "parametric" not in str(e) and "requires_python" not in str(e):
+            raise
+        chk.notes.append(f"R08.1/R08.2: _evaluate_python is no longer parametric in requires_python ({e}); the symbolic residual table was "
+                         f"abandoned and the decision rests on the concrete requires_python grid (R08.4)")
+        chk.rules["R08.2"]["min_instances"] = None
+    # R08.4: concrete requires_python grid x the whole tag vocabulary, judged against the rule table on a fine interpreter grid
+    from ..tagsdomain import RP_GRID, concrete_work
+    from ..specalg import parallel
+    chk.rule("R08.4", "on a grid of concrete requires_python values every tag triple is accepted iff some admitted interpreter can load it, with the right score")
+    grid = RP_GRID if chk.tier == "thorough" else RP_GRID[:18]
+    tot = 0
+    for r in parallel(concrete_work, [(str(chk.src), t) for t in grid], chk.jobs):
+        tot += r["n"]
+        for rp_text, impl, pt, abi, got, exp in r["mismatches"]:
+            cc = cell_class(pt, abi, impl)
+            chk.fail("R08.4", f"{FN}:{cc}:concrete:{'accepts' if got is not None and exp is None else 'rejects' if got is None else 'score'}",
+                     f"requires_python {rp_text!r}, implementation={impl}, python tag {pt}, abi tag {abi}: code returns {got}, "
+                     f"the rule table with the admitted interpreters gives {exp}", {"requires_python": rp_text, "python_tag": pt, "abi_tag": abi})
+    chk.instance("R08.4", tot)
+    nbad = sum(1 for v in chk.violations if v["rule"] == "R08.4")
+    chk.ok("R08.4", key="grid", n=max(0, tot - nbad))
+    _compat(chk, dom, n, classes)
+
+
+def _symbolic_table(chk, dom, FN, classes):
+    n = 0
     for impl in IMPLS:
         for pt in python_tags():
             for abi in abi_tags(pt):
@@ -74,10 +106,13 @@ def run(chk):
                         chk.sample({"impl": impl, "python_tag": pt, "abi_tag": abi, "residual": f"None if empty({text} & requires_python) else {tuple(score)}"})
                 classes[cc] = classes.get(cc, 0) + 1
     chk.instance("R08.1", n)
-    chk.instance("R08.2")
-    chk.ok("R08.2", key="whitelist", n=1)
-    # R08.3 on concrete requires_python values (interpreted specifier algebra + PEP 440 model)
-    dom.concrete()
+    return n
+
+
+def _compat(chk, dom, n, classes):
+    # R08.3 on concrete requires_python values (interpreted specifier algebra + PEP 440 model); a fresh interpreter, so that no
+    # module-level state of the symbolic phase (e.g. a hand-rolled memo holding symbolic templates) leaks into it
+    dom = TagsDomain(str(chk.src))
     it = dom.it
     pvs = it.resolve(it.module("dep_logic.specifiers").ns["parse_version_specifier"])
     comp, _ = dom.EnvSpec.lookup("compatibility")
